@@ -8,9 +8,12 @@ import (
 	"io"
 	"net/http"
 	"net/http/httptest"
+	"runtime"
 	"sort"
 	"strings"
+	"sync"
 	"testing"
+	"time"
 
 	"github.com/google/inverting-proxy/agent/banner"
 	"github.com/google/inverting-proxy/agent/websockets"
@@ -34,7 +37,13 @@ var (
 			"first <head> lies wholly inside the first read of at most 1024 bytes; only Content-Length may change; non-trivial = HTML response")
 )
 
-func TestMain(m *testing.M) { vh.Main(m, recB, recS) }
+var recC = vh.NewRecorder("C14", "banner-concurrent",
+	"8-32 goroutines x 5-20 banner-framed requests each (GET, Accept text/html, 200 text/html, distinct URLs with queries) at the same "+
+		"time through one banner.Proxy handler with a response writer that yields between header and body (as the agent's forwarder does), "+
+		"under -race; oracle: every served frame page is byte-identical to the page rendered for the same URL on its own (it embeds the "+
+		"requested URL and nothing of another request); non-trivial = at least two requests overlapped (always)")
+
+func TestMain(m *testing.M) { vh.Main(m, recB, recS, recC) }
 
 // ------------------------------------------------------------ banner
 
@@ -538,6 +547,112 @@ func TestPropShimScript(t *testing.T) {
 	vh.Rapid(t, vh.Scale(6000, 200000), func(rt *rapid.T) {
 		c := genShim(rt)
 		recS.Check(rt, &c, func() vh.Outcome { return runShim(&c) })
+	})
+}
+
+// slowWriter yields between the calls of a handler, as a writer backed by a pipe does.
+type slowWriter struct{ *vh.PlainWriter }
+
+func (w slowWriter) WriteHeader(code int) {
+	runtime.Gosched()
+	w.PlainWriter.WriteHeader(code)
+	time.Sleep(50 * time.Microsecond)
+}
+
+func (w slowWriter) Write(b []byte) (int, error) {
+	time.Sleep(50 * time.Microsecond)
+	return w.PlainWriter.Write(b)
+}
+
+type ConcCase struct {
+	Goroutines int `json:"goroutines"`
+	Requests   int `json:"requests_each"`
+}
+
+func runBannerConcurrent(c *ConcCase) vh.Outcome {
+	o := vh.Outcome{NonTrivial: true}
+	wrapped := http.HandlerFunc(func(w http.ResponseWriter, r *http.Request) {
+		w.Header().Set("Content-Type", "text/html")
+		w.WriteHeader(200)
+		w.Write([]byte("<html><head></head><body>original of " + r.URL.String() + "</body></html>"))
+	})
+	h, err := banner.Proxy(context.Background(), wrapped, bannerHTML, "40px", "https://static.example/fav.png", nil)
+	if err != nil {
+		o.Err = err
+		return o
+	}
+	page := func(uri string, slow bool) []byte {
+		r := httptest.NewRequest("GET", "http://app.example"+uri, nil)
+		r.Header.Set("Accept", "text/html")
+		pw := vh.NewPlainWriter()
+		if slow {
+			h.ServeHTTP(slowWriter{pw}, r)
+		} else {
+			h.ServeHTTP(pw, r)
+		}
+		return pw.Body.Bytes()
+	}
+	var mu sync.Mutex
+	var firstErr error
+	var wg sync.WaitGroup
+	start := make(chan struct{})
+	uriOf := func(g, k int) string {
+		return fmt.Sprintf("/doc/%d/%s?q=%d&k=%d", g, strings.Repeat("x", (g*7+k)%40), g, k)
+	}
+	// reference: every page served on its own, before anything runs concurrently
+	alone := map[string][]byte{}
+	for g := 0; g < c.Goroutines; g++ {
+		for k := 0; k < c.Requests; k++ {
+			alone[uriOf(g, k)] = page(uriOf(g, k), false)
+			if !bytes.Contains(alone[uriOf(g, k)], []byte(uriOf(g, k)+`"`)) {
+				o.Inconclusive = "the frame page does not embed the requested URL even on its own"
+				return o
+			}
+		}
+	}
+	for g := 0; g < c.Goroutines; g++ {
+		g := g
+		wg.Add(1)
+		go func() {
+			defer wg.Done()
+			<-start
+			for k := 0; k < c.Requests; k++ {
+				uri := uriOf(g, k)
+				mu.Lock()
+				want := alone[uri]
+				mu.Unlock()
+				got := page(uri, true)
+				if !bytes.Equal(got, want) {
+					mu.Lock()
+					if firstErr == nil {
+						firstErr = fmt.Errorf("with %d framed requests in flight, the frame page served for %s differs from the page served for the same URL on its own: got ...%q, alone ...%q", c.Goroutines, uri, tailOf(got), tailOf(want))
+					}
+					mu.Unlock()
+					return
+				}
+			}
+		}()
+	}
+	close(start)
+	wg.Wait()
+	o.Err = firstErr
+	return o
+}
+
+func tailOf(b []byte) string {
+	if i := bytes.Index(b, []byte("<iframe")); i >= 0 {
+		b = b[i:]
+	}
+	if len(b) > 300 {
+		b = b[:300]
+	}
+	return string(b)
+}
+
+func TestPropBannerConcurrent(t *testing.T) {
+	vh.Rapid(t, vh.Scale(40, 600), func(rt *rapid.T) {
+		c := ConcCase{Goroutines: rapid.IntRange(8, 32).Draw(rt, "goroutines"), Requests: rapid.IntRange(5, 20).Draw(rt, "requests")}
+		recC.Check(rt, &c, func() vh.Outcome { return runBannerConcurrent(&c) })
 	})
 }
 
